@@ -266,7 +266,7 @@ func (e *Engine) contractWrites(c *Contract, ws *writeSet, sig *types.Signature,
 			fnName, arg := m[:i], strings.TrimSpace(m[i+1:len(m)-1])
 			if t, ok := ptype[arg]; ok {
 				switch fnName {
-				case "obj", "elems", "map":
+				case "obj", "elems", "map", "deref":
 					e.objectWrites(t, ws)
 					continue
 				case "dyn":
@@ -584,5 +584,8 @@ func (e *Engine) frameGoal(st *State, k string) *Term {
 			cond = And(cond, Ne(r, o.ref))
 		}
 	}
-	return Forall([]*Term{r}, Implies(cond, Eq(Select(cur, r), Select(entry, r))), Select(cur, r))
+	if cur.isSym() {
+		return Forall([]*Term{r}, Implies(cond, Eq(Select(cur, r), Select(entry, r))), Select(cur, r))
+	}
+	return Forall([]*Term{r}, Implies(cond, Eq(Select(cur, r), Select(entry, r))))
 }
